@@ -4,7 +4,7 @@ PROP = "C14"
 SPEC = {
     "manifest": {
         "technique": "machine-checked proof in Coq (induction over schema trees and paths for the naming rule; invariant over all operation histories for the precedence machine) + model/implementation correspondence by vm_compute under a patched os.environ",
-        "text": ("Ten theorems in coq/theories/Env*.v. Naming: for every schema tree, path and combination of schema/field "
+        "text": ("Twelve theorems in coq/theories/Env*.v. Naming: for every schema tree, path and combination of schema/field "
                  "settings (absent, automatic, named, disabled) the name stored by Field.__setkey__/Schema.__setkey__ when the "
                  "schema is built top-down equals the declarative rule (explicit name, else upper-cased underscore-joined path "
                  "below the nearest schema with a setting; disabled schemas/fields give no binding). Precedence: for every "
@@ -13,7 +13,10 @@ SPEC = {
                  "variable when bound and non-empty, else the last accepted loaded value, else the default; an invalid variable "
                  "makes construction fail with a validation error carrying the field's path; unset/empty/opted-out fields step "
                  "exactly like unbound ones. Outside the region known_F20 (list/dict fields, challenge fields with default, "
-                 "bound to a variable), inside which both clauses are refuted by witnesses. The model is tied to core.py by "
+                 "bound to a variable), inside which both clauses are refuted by witnesses. Environments per construction: with the "
+                 "process environment changing between constructions of configurations of one schema, the state after a "
+                 "construction under environment e and any operations on it is that of the one-environment machine under e, "
+                 "whatever was read or validated before (env_per_build, precedence_per_build). The model is tied to core.py by "
                  "running the same schemas, environments and histories on the implementation and comparing every stored "
                  "Field.env/Schema._env_prefix and every step's outcome, value and user-set flag inside Coq."),
         "note": ("Trusted: Coq kernel + vm_compute; the correspondence harness; str.upper enters the naming theorems as an "
@@ -31,15 +34,19 @@ SPEC = {
              "assigned Schema(env=), schema['a.b.f'] = field). Plus, at depth 1-3 and four ways of binding, fields whose "
              "validation of the variable's text raises ValueError / TypeError / KeyError / ZeroDivisionError / OSError / a "
              "custom Exception subclass, through a `validator=` callable and through a Field subclass's _validate: "
-             "construction must raise ValidationError with the field's dotted path. Then seeded random cases: depth <= 6, mixed-case and odd "
+             "construction must raise ValidationError with the field's dotted path. Plus environment changes between "
+             "constructions of one schema (set, changed, unset, emptied, made invalid, valid again; 3 scripts x depth 1-3 x "
+             "4 bindings x 7 classes), every construction judged against the environment of that moment; is_value_defined "
+             "of every field after each construction and reset (C12's clause). Then seeded random cases: depth <= 6, mixed-case and odd "
              "names, empty names, random sibling schemas, random histories and boundary strings for int()/bool. "
              "non-trivial = some field of the schema is bound or the root has a setting; distinct = distinct case"),
     "trusted_base": [KERNEL, "Print Assumptions: closed under the global context (no axioms)", TIE, HARNESS,
                      "modelled, not verified: str.upper (arbitrary function in the theorems, ASCII map in the executable "
                      "model); the validators of the six field classes used by the stream; os.environ as a constant "
                      "association list patched in per case"],
-    "assumptions": ["the process environment does not change between construction and later loads (load_tree re-reads "
-                    "os.environ at load time; a variable that appears or disappears after construction is outside the model)",
+    "assumptions": ["the process environment changes only immediately before a construction, not between a construction and the "
+                    "later loads / resets of that configuration (load_tree re-reads os.environ at load time; a variable that "
+                    "appears or disappears while a configuration is in use is outside the model)",
                     "schemas are built top-down (a sub-schema is attached to its parent before fields are added to it), as the "
                     "property's quantifier says; a schema populated before it is attached computes names from its own prefix only",
                     "keys are ASCII in the correspondence stream (str.upper of other code points is outside the executable model)",
